@@ -320,17 +320,17 @@ fn configs(tier: Tier) -> Vec<Hg> {
             if max < 3 && matches!(delay, Delay::Dyn20_30_10) || max != 2 && matches!(delay, Delay::Frac) {
                 continue;
             }
-            v.push(Hg { max, delay, max_ticks: tier.pick(6, 8), held_readiness: false, late_ticks: 0 });
+            v.push(Hg { max, delay, max_ticks: tier.pick(6, 10), held_readiness: false, late_ticks: 0 });
         }
         if max == 3 {
             // a late executor: the woken call is polled up to two ticks late
             for delay in [Delay::Fixed20, Delay::Dyn20_10] {
-                v.push(Hg { max, delay, max_ticks: tier.pick(7, 9), held_readiness: false, late_ticks: 2 });
+                v.push(Hg { max, delay, max_ticks: tier.pick(7, 10), held_readiness: false, late_ticks: tier.pick(2, 3) });
             }
         }
         if max >= 2 {
             for delay in [Delay::Fixed20, Delay::Immediate] {
-                v.push(Hg { max, delay, max_ticks: tier.pick(5, 7), held_readiness: true, late_ticks: 0 });
+                v.push(Hg { max, delay, max_ticks: tier.pick(5, 8), held_readiness: true, late_ticks: 0 });
             }
         }
     }
@@ -358,8 +358,8 @@ fn main() {
     for w in ["success_while_hedge_clone_not_ready", "hedge_started_after_delay", "attempts_started_at_one_instant", "hedge_failed_while_primary_running", "completion_at_hedge_start_instant", "all_attempts_failed", "hedge_won", "hedge_clone_reported_a_readiness_error", "all_failed_with_a_readiness_error_among_the_attempts"] {
         rep.require_witness(w);
     }
-    let depth = tier.pick(12, 16);
-    rep.bounds = json!({"depth": depth, "max_ticks": tier.pick(6,8), "grid_ms": 10});
+    let depth = tier.pick(12, 20);
+    rep.bounds = json!({"depth": depth, "max_ticks": tier.pick(6,10), "grid_ms": 10});
     for cfg in configs(tier) {
         let opts = Opts { max_depth: depth, time_cap: Duration::from_secs(tier.pick(30, 600)), ..Opts::default() };
         let ex = svcx::explore(&cfg, &opts, &mut rep);
